@@ -100,6 +100,35 @@ fn family(q: &QLang) -> Vec<Pat> {
                 p.children.push(Elem { anchor_before: false, alts: vec![rename_caps(plain[0].clone(), "b")] });
                 out.push(p);
             }
+            // an alternation of two or three branches in every anchored position: alone, last of two children, first of two
+            // (the anchors of a slot have to reach every branch of the alternation, in whatever order the branches are written)
+            if i != j && i < 4 && j < 4 {
+                let mut branch_lists: Vec<Vec<Pat>> = vec![vec![rename_caps(c1.clone(), "a"), rename_caps(c2.clone(), "c")]];
+                for (k, c3) in plain.iter().enumerate().take(4) { if k != i && k != j {
+                    branch_lists.push(vec![rename_caps(c1.clone(), "a"), rename_caps(c2.clone(), "c"), rename_caps(c3.clone(), "d")]);
+                } }
+                for alts in branch_lists {
+                    for mask in 1..4u8 {
+                        let mut p = root.clone();
+                        p.children.push(Elem { anchor_before: mask & 1 != 0, alts: alts.clone() });
+                        p.anchor_end = mask & 2 != 0;
+                        out.push(p);
+                    }
+                    for mask in 1..8u8 {
+                        let other = rename_caps(plain[0].clone(), "b");
+                        let mut p = root.clone();
+                        p.children.push(Elem { anchor_before: mask & 1 != 0, alts: vec![other.clone()] });
+                        p.children.push(Elem { anchor_before: mask & 2 != 0, alts: alts.clone() });
+                        p.anchor_end = mask & 4 != 0;
+                        out.push(p);
+                        let mut p = root.clone();
+                        p.children.push(Elem { anchor_before: mask & 1 != 0, alts: alts.clone() });
+                        p.children.push(Elem { anchor_before: mask & 2 != 0, alts: vec![other] });
+                        p.anchor_end = mask & 4 != 0;
+                        out.push(p);
+                    }
+                }
+            }
             // quantifier on the second child
             if i < 4 && j < 4 { for qn in [Quant::Opt, Quant::Star, Quant::Plus] {
                 let mut p = root.clone();
@@ -140,7 +169,7 @@ pub fn supertype_fn(info: &LangInfo, st: Option<&'static str>) -> impl Fn(&XTree
         if let Some(p) = n.parent {
             let pk = lang.node_kind_for_id(xt.nodes[p].kind_id).unwrap_or("");
             // (likewise below pragma and sigil_decl: the grammar uses `identifier` there directly, not through `_expr`)
-            if pk == "fn_def" || pk == "params" || pk == "pragma" || pk == "sigil_decl" { return false; }
+            if pk == "fn_def" || pk == "params" || pk == "pragma" || pk == "sigil_decl" || pk == "use_stmt" { return false; }
         }
         true
     }
